@@ -1,0 +1,36 @@
+//go:build verif
+
+package grace
+
+import "time"
+
+// VerifSetExpectation records an expectation for (key, action) that is `age` old
+// (verification harness only).
+func VerifSetExpectation(key, action string, age time.Duration) {
+	e := DefaultGraceExpectations
+	e.Lock()
+	defer e.Unlock()
+	m := e.controllerCache[key]
+	if m == nil {
+		m = make(timeCache)
+		e.controllerCache[key] = m
+	}
+	t := time.Now().Add(-age)
+	m[Action(action)] = &t
+}
+
+// VerifGetExpectation returns whether an expectation exists for (key, action) and its age.
+func VerifGetExpectation(key, action string) (bool, time.Duration) {
+	e := DefaultGraceExpectations
+	e.RLock()
+	defer e.RUnlock()
+	m := e.controllerCache[key]
+	if m == nil {
+		return false, 0
+	}
+	t, ok := m[Action(action)]
+	if !ok {
+		return false, 0
+	}
+	return true, time.Since(*t)
+}
